@@ -181,7 +181,8 @@ CHECKS = {
         "reference tokeniser finds, and the same model as its fully parenthesised form.  Hypothesis generates deep "
         "sentences of the term language and of arbitrary expression shape, renders them with drawn whitespace and "
         "redundant parentheses (base and variants must agree on accept/reject and on the model), mutates them into near "
-        "misses, and draws character-level strings.",
+        "misses, and draws character-level strings.  For calls whose argument is an operator expression, the column of the call "
+        "must equal the column of the same call with the argument fully parenthesised under the documented precedence.",
         "Exploration.  Trusted: vf/refparse.py (cross-checked against the generator's own parenthesisation rule on every "
         "generated sentence).  Rejection of a grammatical sentence is allowed by the statement and is not judged.",
         "DESIGN.md section 3, C01",
